@@ -5,6 +5,7 @@ CONSTANTS
   Truncate = TRUE
   DEV_Lookahead4 = FALSE
   DEV_EofPending = FALSE
+  DEV_BareCr = FALSE
 INVARIANTS ContentExact PrefixOnly NoFalseError NotStuck EmitCase
 VIEW View
 CHECK_DEADLOCK FALSE
